@@ -260,6 +260,27 @@ mutant('C17', 'blob-export-not-json', 'frappy/persistent.py',
 mutant('C17', 'scaled-stored-as-float', 'frappy/datatypes.py',
        "        return int(round(value / self.scale))\n\n    def import_value(self, value):",
        "        return value\n\n    def import_value(self, value):")
+# ---------------------------------------------------------------- C19
+mutant('C19', 'budget-with-short-port', 'frappy/protocol/discovery.py',
+       "                    if len(self._getMessage(2**16-1)) > MAX_MESSAGE_LEN:\n                        high = mid - 1",
+       "                    if len(self._getMessage(80)) > MAX_MESSAGE_LEN:\n                        high = mid - 1")
+mutant('C19', 'only-json-errors-caught', 'frappy/protocol/discovery.py',
+       "            except (ValueError, RecursionError):", "            except json.JSONDecodeError:")
+mutant('C19', 'non-request-ends-loop', 'frappy/protocol/discovery.py',
+       "            if not isinstance(request, dict) or request.get('SECoP') != 'discover':\n                continue",
+       "            if not isinstance(request, dict) or request.get('SECoP') != 'discover':\n                return")
+mutant('C19', 'answers-any-secop-object', 'frappy/protocol/discovery.py',
+       "            if not isinstance(request, dict) or request.get('SECoP') != 'discover':",
+       "            if not isinstance(request, dict) or 'SECoP' not in request:")
+mutant('C19', 'answers-first-port-only', 'frappy/protocol/discovery.py',
+       "            for port in self.ports:\n                self.sock.sendto(self._getMessage(port), addr)",
+       "            for port in self.ports[:1]:\n                self.sock.sendto(self._getMessage(port), addr)")
+mutant('C19', 'ws-ports-announced', 'frappy/protocol/discovery.py',
+       "                      for iface in ifaces if iface.startswith('tcp')]",
+       "                      for iface in ifaces]")
+mutant('C19', 'budget-counts-characters', 'frappy/protocol/discovery.py',
+       "        }, ensure_ascii=False, separators=(',', ':')).encode('utf-8')",
+       "        }, ensure_ascii=False, separators=(',', ':')).encode('utf-8') if port != 2**16-1 else json.dumps({'SECoP': 'node', 'port': port, 'equipment_id': self.equipment_id, 'firmware': self.firmware, 'description': self.description}, ensure_ascii=False, separators=(',', ':')).encode('utf-16')[::2]")
 
 
 def run_mutant(prop, name, file, old, new, runs, extra):
